@@ -40,9 +40,11 @@ func VerifC10Ops() {
 	}
 	prefix := ""
 	var doc JsonNode = c
+	wrapped := false
 	if vChoice(vParam("WRAPS", 2)) == 1 {
 		prefix = "/a"
-		doc = jsonObject{"a": c}
+		doc = jsonObject{"a": c, "z": vNum()}
+		wrapped = true
 	}
 	ops := make([]patchElement, k)
 	ref := make([]refPatchOp, k)
@@ -54,8 +56,12 @@ func VerifC10Ops() {
 			tok = strconv.Itoa(i)
 		}
 		v := vF64()
-		ops[j] = patchElement{Op: kind, Path: prefix + "/" + tok, Value: v}
-		ref[j] = refPatchOp{op: kind, path: prefix + "/" + tok, value: jsonNumber(v), has: true}
+		path := prefix + "/" + tok
+		if wrapped && vParam("ZOPS", 1) == 1 && vChoice(3) == 2 {
+			path = "/z" // an operation on the scalar member next to the array
+		}
+		ops[j] = patchElement{Op: kind, Path: path, Value: v}
+		ref[j] = refPatchOp{op: kind, path: path, value: jsonNumber(v), has: true}
 	}
 	text, _ := json.Marshal(ops)
 	vObserve("patch", string(text))
